@@ -134,6 +134,7 @@ type Emitting struct {
 	AppStats      *AppStats
 	Stream        TcpStream
 	OutputChannel chan *OutputChannelItem
+	indexLock     sync.Mutex
 }
 
 type Emitter interface {
@@ -145,8 +146,10 @@ func (e *Emitting) Emit(item *OutputChannelItem) {
 	e.Stream.SetAsEmittable()
 
 	item.Stream = e.Stream.GetPcapId()
+	e.indexLock.Lock()
 	item.Index = e.Stream.GetIndex()
 	e.Stream.IncrementItemCount()
+	e.indexLock.Unlock()
 	e.OutputChannel <- item
 }
 
